@@ -44,6 +44,12 @@ type Settings struct {
 	// hasTableSize does the same for SETTINGS_HEADER_TABLE_SIZE, for whoever
 	// owns the encoder the value is meant for.
 	hasTableSize bool
+	// hasPush and hasMaxStreams do the same for SETTINGS_ENABLE_PUSH and
+	// SETTINGS_MAX_CONCURRENT_STREAMS. The setters raise these marks as well:
+	// zero (or false) is a value a peer has to be able to send, and the mark
+	// is what tells Encode it was asked for.
+	hasPush       bool
+	hasMaxStreams bool
 }
 
 func (st *Settings) Type() FrameType {
@@ -63,6 +69,8 @@ func (st *Settings) Reset() {
 	st.ack = false
 	st.hasWindowSize = false
 	st.hasTableSize = false
+	st.hasPush = false
+	st.hasMaxStreams = false
 }
 
 // CopyTo copies st fields to st2.
@@ -77,6 +85,8 @@ func (st *Settings) CopyTo(st2 *Settings) {
 	st2.headerSize = st.headerSize
 	st2.hasWindowSize = st.hasWindowSize
 	st2.hasTableSize = st.hasTableSize
+	st2.hasPush = st.hasPush
+	st2.hasMaxStreams = st.hasMaxStreams
 }
 
 // SetHeaderTableSize sets the maximum size of the header
@@ -85,6 +95,7 @@ func (st *Settings) CopyTo(st2 *Settings) {
 // Default value is 4096.
 func (st *Settings) SetHeaderTableSize(size uint32) {
 	st.tableSize = size
+	st.hasTableSize = true
 }
 
 // HeaderTableSize returns the maximum size of the header
@@ -101,6 +112,7 @@ func (st *Settings) HeaderTableSize() uint32 {
 // if not the Push Promise will be disabled.
 func (st *Settings) SetPush(value bool) {
 	st.enablePush = value
+	st.hasPush = true
 }
 
 func (st *Settings) Push() bool {
@@ -113,6 +125,7 @@ func (st *Settings) Push() bool {
 // Default value is 100. This value does not have max limit.
 func (st *Settings) SetMaxConcurrentStreams(streams uint32) {
 	st.maxStreams = streams
+	st.hasMaxStreams = true
 }
 
 // MaxConcurrentStreams returns the maximum number of
@@ -130,6 +143,7 @@ func (st *Settings) MaxConcurrentStreams() uint32 {
 // Maximum value is 1 << 31 - 1.
 func (st *Settings) SetMaxWindowSize(size uint32) {
 	st.windowSize = size
+	st.hasWindowSize = true
 }
 
 // MaxWindowSize returns the sender's initial window size
@@ -195,8 +209,10 @@ func (st *Settings) Read(d []byte) error {
 				return NewGoAwayError(ProtocolError, "wrong value for SETTINGS_ENABLE_PUSH")
 			}
 			st.enablePush = value != 0
+			st.hasPush = true
 		case MaxConcurrentStreams:
 			st.maxStreams = value
+			st.hasMaxStreams = true
 		case MaxWindowSize:
 			if value > 1<<31-1 {
 				return NewGoAwayError(FlowControlError, "SETTINGS_INITIAL_WINDOW_SIZE above maximum")
@@ -219,10 +235,16 @@ func (st *Settings) Read(d []byte) error {
 }
 
 // Encode encodes settings to be sent through the wire.
+//
+// A value that was set, or read from a frame, is written even when it is zero:
+// SETTINGS_HEADER_TABLE_SIZE, SETTINGS_MAX_CONCURRENT_STREAMS and
+// SETTINGS_INITIAL_WINDOW_SIZE of 0 and SETTINGS_ENABLE_PUSH of 0 all mean
+// something else than leaving the setting out. A zero nobody asked for (a
+// Settings that was never Reset) is still left out.
 func (st *Settings) Encode() {
 	st.rawSettings = st.rawSettings[:0]
 
-	if st.tableSize != 0 {
+	if st.tableSize != 0 || st.hasTableSize {
 		st.rawSettings = append(st.rawSettings,
 			byte(HeaderTableSize>>8), byte(HeaderTableSize),
 			byte(st.tableSize>>24), byte(st.tableSize>>16),
@@ -235,9 +257,14 @@ func (st *Settings) Encode() {
 			byte(EnablePush>>8), byte(EnablePush),
 			0, 0, 0, 1,
 		)
+	} else if st.hasPush {
+		st.rawSettings = append(st.rawSettings,
+			byte(EnablePush>>8), byte(EnablePush),
+			0, 0, 0, 0,
+		)
 	}
 
-	if st.maxStreams != 0 {
+	if st.maxStreams != 0 || st.hasMaxStreams {
 		st.rawSettings = append(st.rawSettings,
 			byte(MaxConcurrentStreams>>8), byte(MaxConcurrentStreams),
 			byte(st.maxStreams>>24), byte(st.maxStreams>>16),
@@ -245,7 +272,7 @@ func (st *Settings) Encode() {
 		)
 	}
 
-	if st.windowSize != 0 {
+	if st.windowSize != 0 || st.hasWindowSize {
 		st.rawSettings = append(st.rawSettings,
 			byte(MaxWindowSize>>8), byte(MaxWindowSize),
 			byte(st.windowSize>>24), byte(st.windowSize>>16),
